@@ -134,6 +134,13 @@ class Oracle:
                 m, rest = part.split(":", 1)
                 kv = dict(x.split("=", 1) for x in rest.split(","))
                 views[int(m[1:])] = kv
+            if getattr(self, "periodic", False) == "probe":
+                # (the generator asks whether the tables have settled; nothing is judged yet)
+                tabs = set(kv["table"] for kv in views.values())
+                self.periodic_stale = len(tabs) != 1 or any(
+                    int(views[int(o.split(".")[0])]["plen"].split(";")[pi]) == 0
+                    for pi, row in enumerate(next(iter(tabs)).split("~")) for o in mems(row.split("/")[0])[:-1] if int(o.split(".")[0]) in views)
+                return None
             if sorted(views) != sorted(self.alive):
                 return "dump lists members %s, live are %s" % (sorted(views), sorted(self.alive))
             oldest = min(self.alive, key=lambda x: self.alive[x])
@@ -161,7 +168,7 @@ class Oracle:
                         mi = int(o.split(".")[0])
                         if mi in views and int(views[mi]["plen"].split(";")[pi]) == 0:
                             return ("partition %d still lists member %s, which holds nothing of it, %s after the hand-over: the periodic routing push "
-                                    "of the current coordinator (member %d, not the founding one) does not prune it" % (pi, o, "1.5 s (ten push periods)", oldest))
+                                    "of the current coordinator (member %d, not the founding one) does not prune it" % (pi, o, "1.5 to 9 s (ten to sixty push periods)", oldest))
             self.last_table = table
             N = len(live)
             for pi, row in enumerate(table.split("~")):
@@ -248,7 +255,13 @@ class Gen:
         for _ in range(3):
             yield "c.balanceall"
             yield "c.wait 300"
-        yield "c.wait 900"
+        # ten push periods, and up to eight seconds more on a machine that is busy with other things
+        for attempt in range(9):
+            yield "c.wait %d" % (900 if attempt == 0 else 1000)
+            orc.periodic = "probe"
+            yield "rt.dump"
+            if not orc.periodic_stale:
+                break
         orc.periodic = True
         yield "rt.dump"
         orc.periodic = False
